@@ -693,8 +693,8 @@ func runProof(a *Analyzer, r *Results) {
 		}
 		nTrue++
 		if e.Args[0].Key() != tTrue.Key() {
-			ev.Verdict("PR0", pr, "ValidatePreparedProof returns only the constants true/false (so that every acceptance is a decided path)", "nonempty", false, "returns "+PP(e.Args[0]))
-			return
+			// the verdict is delegated: the proof is accepted exactly when the returned expression is true
+			ev.Assume(Truth(e.Args[0]))
 		}
 		ev.Require("PR1", pr, "all four parts of the proof are present", "nonempty", Ne(ppSender, tNil), Ne(ppRef, tNil), Ne(pRef, tNil))
 		ev.Require("PR2", pr, "the proof is for the target height", "nonempty", Eq(ht(ppRef), th))
